@@ -1,13 +1,17 @@
 #!/bin/bash
-# run_seeded.sh <Cxx> <mutant dir> [tier]: apply patch to /repo, run the check, always revert
+# run_seeded.sh <Cxx> <mutant dir> [tier]
+# Runs a check against a seeded change without touching /repo: the patch is applied in a throw-away git worktree
+# of /repo's HEAD and the check is pointed at it (VERIF_REPO); evidence and replays go to a scratch directory.
 pid="$1"; m="$2"; tier="${3:-quick}"
-cd /repo && git diff --quiet || { echo "/repo dirty"; exit 9; }
-git apply "$m/patch.diff" || exit 9
+wt=$(mktemp -d /tmp/seedwt.XXXXXX)
+git -C /repo worktree add -q --detach "$wt" HEAD || exit 9
+( cd "$wt" && git apply "$m/patch.diff" ) || { git -C /repo worktree remove --force "$wt"; exit 9; }
+cp /repo/Cargo.lock "$wt/" 2>/dev/null
+out=$(mktemp -d /tmp/seedout.XXXXXX)
 cd /verif
-cp evidence/$pid.json /tmp/ev_$pid.bak 2>/dev/null
-./check $pid --tier $tier > /tmp/seeded_run.log 2>&1
+VERIF_REPO="$wt" VERIF_EVIDENCE_DIR="$out" VERIF_REPLAY_DIR="$out" ./check $pid --tier $tier > "$out/log" 2>&1
 rc=$?
-cp /tmp/ev_$pid.bak evidence/$pid.json 2>/dev/null
-git -C /repo checkout -- .
-grep -E "^VIOLATION|^KNOWN|^INCONCLUSIVE|^\[C" /tmp/seeded_run.log | cut -c1-300
+git -C /repo worktree remove --force "$wt"; git -C /repo worktree prune
+grep -E "^VIOLATION|^KNOWN|^INCONCLUSIVE|^\[C" "$out/log" | cut -c1-300
 echo "exit=$rc"
+rm -rf "$out"
